@@ -125,7 +125,7 @@ class ebpps_sample {
      * @return a std::pair with a sample and the number of bytes read
      */
     template<typename SerDe = serde<T>>
-    static std::pair<ebpps_sample, size_t> deserialize(const uint8_t* ptr, size_t size, const SerDe& sd = SerDe(), const A& allocator = A());
+    static std::pair<ebpps_sample, size_t> deserialize(const uint8_t* ptr, size_t size, uint32_t k, const SerDe& sd = SerDe(), const A& allocator = A());
 
     /**
      * This method deserializes a sample from a given stream.
@@ -135,7 +135,7 @@ class ebpps_sample {
      * @return an instance of a sample
      */
     template<typename SerDe = serde<T>>
-    static ebpps_sample deserialize(std::istream& is, const SerDe& sd = SerDe(), const A& allocator = A());
+    static ebpps_sample deserialize(std::istream& is, uint32_t k, const SerDe& sd = SerDe(), const A& allocator = A());
 
     class const_iterator;
 
